@@ -192,6 +192,19 @@ func normalize(t *Term) *Term {
 				}
 			}
 		}
+		// comparison of a boolean with a literal: x == true => x, x == false => !x
+		if t.Name == "==" || t.Name == "!=" {
+			for i := 0; i < 2; i++ {
+				lit, x := t.Args[i], t.Args[1-i]
+				if lit.Op != OpConst || (lit.Name != "true" && lit.Name != "false") || x.Op == OpConst {
+					continue
+				}
+				if (lit.Name == "true") == (t.Name == "==") {
+					return x
+				}
+				return normalize(&Term{Op: OpUn, Name: "!", Args: []*Term{x}, Pos: t.Pos, Typ: t.Typ, Val: t.Val})
+			}
+		}
 		if commutative[t.Name] && a.String() > b.String() {
 			t.Args = []*Term{b, a}
 		} else if f, ok := flipCmp[t.Name]; ok && !commutative[t.Name] && (t.Name == ">" || t.Name == ">=") {
